@@ -27,26 +27,37 @@ def to_smt2(ob):
     return s.to_smt2()
 
 
-def _solve_text(args):
-    name, text, expect, timeout_ms, use_cvc5 = args
-    t0 = time.time()
-    backend = "z3"
+def _z3_check(text, timeout_ms):
     try:
         ctx = z3.Context()
         s = z3.Solver(ctx=ctx)
         s.set("timeout", timeout_ms)
         s.from_string(text)
         r = str(s.check())
-        reason = s.reason_unknown() if r == "unknown" else ""
+        return r, (s.reason_unknown() if r == "unknown" else "")
     except Exception as e:  # pragma: no cover
-        r, reason = "error", f"{type(e).__name__}: {e}"
-    t_z3 = time.time() - t0
-    if r in ("unknown", "error") and use_cvc5:
+        return "error", f"{type(e).__name__}: {e}"
+
+
+def _solve_text(args):
+    """z3 with a short budget, then cvc5, then z3 with the full budget."""
+    name, text, expect, timeout_ms, use_cvc5 = args
+    t0 = time.time()
+    first = min(timeout_ms, 4000)
+    r, reason = _z3_check(text, first)
+    if r in ("sat", "unsat"):
+        return name, r, "z3", time.time() - t0, reason
+    if use_cvc5:
         r2, reason2 = run_cvc5(text)
         if r2 in ("sat", "unsat"):
             return name, r2, "cvc5", time.time() - t0, reason2
         reason = f"z3: {reason}; cvc5: {reason2}"
-    return name, r, backend, time.time() - t0, reason
+    if timeout_ms > first:
+        r, reason3 = _z3_check(text, timeout_ms)
+        if r in ("sat", "unsat"):
+            return name, r, "z3", time.time() - t0, reason3
+        reason = f"{reason}; z3 (full budget): {reason3}"
+    return name, r, "z3", time.time() - t0, reason
 
 
 def run_cvc5(text, timeout_s=None):
